@@ -78,6 +78,44 @@ pub fn configs(prop: &str, thorough: bool) -> Vec<(Cfg, Option<usize>)> {
                     }
                 }
             }
+            // sub-second block times: the expiry instant falls inside a second (period 1 s, blocks 0.6 s apart), so
+            // "same second" and "ended" are different things
+            for flex in [false, true] {
+                for (tn, th) in [("count2", Th::Count(2)), ("pct51", Th::Pct(pct(510_000_000))), ("q50-33.3", Th::Quorum { t: pct(500_000_000), q: pct(333_333_333) })] {
+                    if !thorough && flex == (tn == "q50-33.3") {
+                        continue;
+                    }
+                    let mut c = Cfg::base(&format!("C03/{}/w111/{tn}/sub-second-clock", if flex { "flex" } else { "fixed" }), flex);
+                    c.props = p.clone();
+                    c.th = th;
+                    c.period = Per::T(1);
+                    c.tick_ns = 600_000_000;
+                    c.proposers = vec![0];
+                    c.latest = vec![LatestA::Unset, LatestA::Shorter];
+                    c.voters_acting = vec![1, 2];
+                    c.executors = vec![3];
+                    c.closers = vec![3];
+                    c.blocks = 4;
+                    c.exec_iff = true;
+                    out.push((c, None));
+                }
+            }
+            // a proposal whose message makes the multisig close / execute the previous proposal (calls whose sender is
+            // the multisig itself): the status of the previous proposal must keep following its ballots
+            for flex in [false, true] {
+                let mut c = Cfg::base(&format!("C03/{}/w111/count2/nested-close-and-execute", if flex { "flex" } else { "fixed" }), flex);
+                c.props = p.clone();
+                c.th = Th::Count(2);
+                c.max_props = 2;
+                c.kinds = vec![PK::Empty, PK::ClosePrev, PK::ExecPrev];
+                c.proposers = vec![0];
+                c.votes = vec![VoteA::Yes, VoteA::No];
+                c.voters_acting = vec![1, 2];
+                c.executors = vec![3];
+                c.closers = vec![3];
+                c.blocks = 3;
+                out.push((c, None));
+            }
             // flex: the group changes AFTER the proposal was opened (status must keep following its own snapshot)
             for (n, wv, th) in [
                 ("A1,B2,C1/pct51", vec![(0u8, 1u64), (1, 2), (2, 1)], Th::Pct(pct(510_000_000))),
@@ -269,12 +307,12 @@ pub fn configs(prop: &str, thorough: bool) -> Vec<(Cfg, Option<usize>)> {
             // (b) re-entrancy and nesting, funding
             for flex in [false, true] {
                 for (ki, kinds) in [vec![PK::Reenter, PK::Tag1], vec![PK::Tag1, PK::ExecPrev], vec![PK::Tag1, PK::ClosePrev], vec![PK::Pay, PK::Tag1]].into_iter().enumerate() {
-                    for ex in [Exec::Anyone, Exec::Only(3)] {
+                    for ex in [Exec::Anyone, Exec::Only(3), Exec::Member] {
                         if !flex && ex != Exec::Anyone {
                             continue;
                         }
-                        let _ = ki;
-                        if !thorough && ex != Exec::Anyone {
+                        // quick: restricted executors only for the nested Execute (a call whose sender is the multisig itself)
+                        if !thorough && ex != Exec::Anyone && ki != 1 {
                             continue;
                         }
                         let mut c = Cfg::base(&format!("C05/{}/{:?}/{:?}/reentrancy", if flex { "flex" } else { "fixed" }, kinds, ex), flex);
@@ -312,6 +350,9 @@ pub fn configs(prop: &str, thorough: bool) -> Vec<(Cfg, Option<usize>)> {
                 ("A3,B1,C1,A1(repeated-apart)", vec![(0, 3), (1, 1), (2, 1), (0, 1)]),
                 ("A1(single)", vec![(0, 1)]),
                 ("A0,B0,C1", vec![(0, 0), (1, 0), (2, 1)]),
+                ("A2,B1,A0(repeated with zero weight)", vec![(0, 2), (1, 1), (0, 0)]),
+                ("A0,B1,A2(repeated with zero weight)", vec![(0, 0), (1, 1), (0, 2)]),
+                ("A0,A0,B1(repeated with zero weight)", vec![(0, 0), (0, 0), (1, 1)]),
             ] {
                 for th in [Th::Count(1), Th::Pct(pct(510_000_000))] {
                     let mut c = Cfg::base(&format!("C06/fixed/{n}/{:?}", th), false);
@@ -325,6 +366,11 @@ pub fn configs(prop: &str, thorough: bool) -> Vec<(Cfg, Option<usize>)> {
                     c.executors = vec![3];
                     c.closers = vec![3];
                     c.blocks = 3;
+                    if n == "A1,B1,C1" {
+                        // every vote kind, so that a second ballot after an Abstain / Veto is tried too
+                        c.max_props = 1;
+                        c.votes = vec![VoteA::Yes, VoteA::No, VoteA::Abstain, VoteA::Veto];
+                    }
                     out.push((c, None));
                 }
             }
@@ -480,6 +526,25 @@ pub fn configs(prop: &str, thorough: bool) -> Vec<(Cfg, Option<usize>)> {
                     }
                     out.push((c, None));
                 }
+            }
+            // a zero-weight member proposes and everybody else only abstains ("0 of 0" opinions): the proposal fails
+            // and its deposit must still be recoverable
+            for (tn, th) in [("pct51", Th::Pct(pct(510_000_000))), ("q51-50", Th::Quorum { t: pct(510_000_000), q: pct(500_000_000) })] {
+                let mut c = Cfg::base(&format!("C15/A0,B1,C1/{tn}/native/refund=true/zero-weight-proposer-abstentions"), true);
+                c.props = p.clone();
+                c.voters = vec![(0, 0), (1, 1), (2, 1)];
+                c.th = th;
+                c.deposit = Dep::Native { amount: 2, refund: true };
+                c.max_props = 1;
+                c.proposers = vec![0];
+                c.votes = vec![VoteA::Abstain, VoteA::No, VoteA::Yes];
+                c.voters_acting = vec![1, 2];
+                c.executors = vec![3];
+                c.closers = vec![0, 3];
+                c.blocks = 3;
+                c.purse = 4;
+                c.funds = vec![vec![(0, 2)]];
+                out.push((c, None));
             }
             // a proposal whose own message spends the multisig's funds (shared pool)
             {
